@@ -1,6 +1,7 @@
 (* The facts about the two f64 thresholds of weighted_median that the balance
-   statement needs (thr_ok_b), PROVED for every total weight 0 <= T < 2^46 and
-   both weight types, for the TOLERANCE literal of the current source.
+   statement needs (thr_ok_b), PROVED for the TOLERANCE literal of the current
+   source: for i64 weights and every total 0 <= T < 2^46; for f64 weights
+   z * 2^-k (k <= 1000) and every total z with 0 <= z < 2^53.
 
    Coq's SpecFloat operations (used by the executable model) are linked to
    Flocq's BinarySingleNaN operations (binary_round_aux_equiv etc., as in
@@ -95,29 +96,34 @@ Proof.
   pose proof (F2R_lt_0 radix2 (Float radix2 (Z.opp (Zpos m)) e) ltac:(cbn; lia)). lra.
 Qed.
 
-Lemma floor_cmp_spec (L : bf) : BinarySingleNaN.is_finite L = true -> 0 <= B2R L ->
-  IZR (floor_cmp (B2SF L)) <= B2R L < IZR (floor_cmp (B2SF L)) + 1.
+(* x * 2^k for a finite non-negative float x, as an exact scaled mantissa *)
+Lemma scaled_value (m : positive) (e k : Z) H :
+  B2R (@B754_finite prec emax false m e H) * bpow radix2 k = IZR (Z.pos m) * bpow radix2 (e + k).
+Proof. unfold B2R, F2R. cbn [cond_Zopp Fnum Fexp]. rewrite bpow_plus. ring. Qed.
+
+Lemma floor_cmp_spec (L : bf) (k : Z) : BinarySingleNaN.is_finite L = true -> 0 <= B2R L ->
+  IZR (floor_cmp k (B2SF L)) <= B2R L * bpow radix2 k < IZR (floor_cmp k (B2SF L)) + 1.
 Proof.
   intros Hf Hr. destruct (nonneg_shape L Hf Hr) as [(s & ->)|(m & e & H & ->)].
   - cbn. lra.
-  - cbn [B2SF floor_cmp B2R cond_Zopp]. unfold F2R. cbn [Fnum Fexp].
-    destruct (Z.leb_spec 0 e) as [He|He].
+  - rewrite scaled_value. cbn [B2SF floor_cmp]. set (e' := (e + k)%Z).
+    destruct (Z.leb_spec 0 e') as [He|He].
     + rewrite mult_IZR, bpow_nonneg_Z by lia. lra.
-    + assert (Hb : bpow radix2 e = / IZR (2 ^ (- e))) by (rewrite <- bpow_neg_Z by lia; f_equal; lia).
+    + assert (Hb : bpow radix2 e' = / IZR (2 ^ (- e'))) by (rewrite <- bpow_neg_Z by lia; f_equal; lia).
       rewrite Hb. apply pos_div_bounds. lia.
 Qed.
 
-Lemma ceil_cmp_spec (L : bf) : BinarySingleNaN.is_finite L = true -> 0 <= B2R L ->
-  IZR (ceil_cmp (B2SF L)) - 1 < B2R L <= IZR (ceil_cmp (B2SF L)).
+Lemma ceil_cmp_spec (L : bf) (k : Z) : BinarySingleNaN.is_finite L = true -> 0 <= B2R L ->
+  IZR (ceil_cmp k (B2SF L)) - 1 < B2R L * bpow radix2 k <= IZR (ceil_cmp k (B2SF L)).
 Proof.
   intros Hf Hr. destruct (nonneg_shape L Hf Hr) as [(s & ->)|(m & e & H & ->)].
   - cbn. lra.
-  - cbn [B2SF ceil_cmp B2R cond_Zopp]. unfold F2R. cbn [Fnum Fexp].
-    destruct (Z.leb_spec 0 e) as [He|He].
+  - rewrite scaled_value. cbn [B2SF ceil_cmp]. set (e' := (e + k)%Z).
+    destruct (Z.leb_spec 0 e') as [He|He].
     + rewrite mult_IZR, bpow_nonneg_Z by lia. lra.
-    + assert (Hb' : bpow radix2 e = / IZR (2 ^ (- e))) by (rewrite <- bpow_neg_Z by lia; f_equal; lia).
+    + assert (Hb' : bpow radix2 e' = / IZR (2 ^ (- e'))) by (rewrite <- bpow_neg_Z by lia; f_equal; lia).
       rewrite Hb'.
-      pose proof (pos_div_bounds (- Z.pos m) (- e) ltac:(lia)) as Hb.
+      pose proof (pos_div_bounds (- Z.pos m) (- e') ltac:(lia)) as Hb.
       rewrite !opp_IZR in *. lra.
 Qed.
 
@@ -125,12 +131,12 @@ Lemma sat_i64_spec (L : bf) : BinarySingleNaN.is_finite L = true -> 0 <= B2R L <
   IZR (sat_i64 (B2SF L)) <= B2R L < IZR (sat_i64 (B2SF L)) + 1.
 Proof.
   intros Hf Hr.
-  pose proof (floor_cmp_spec L Hf ltac:(lra)) as Hb.
-  assert (Hfl : sat_i64 (B2SF L) = floor_cmp (B2SF L)); [|rewrite Hfl; exact Hb].
-  assert (H0 : (-1 < floor_cmp (B2SF L))%Z) by (apply lt_IZR; rewrite <- (Rplus_0_r (IZR (-1))); change (IZR (-1)) with (-1); lra).
-  assert (H1 : (floor_cmp (B2SF L) < 2 ^ 62)%Z) by (apply lt_IZR; lra).
+  pose proof (floor_cmp_spec L 0 Hf ltac:(lra)) as Hb. cbn [bpow] in Hb. rewrite Rmult_1_r in Hb.
+  assert (Hfl : sat_i64 (B2SF L) = floor_cmp 0 (B2SF L)); [|rewrite Hfl; exact Hb].
+  assert (H0 : (-1 < floor_cmp 0 (B2SF L))%Z) by (apply lt_IZR; rewrite <- (Rplus_0_r (IZR (-1))); change (IZR (-1)) with (-1); lra).
+  assert (H1 : (floor_cmp 0 (B2SF L) < 2 ^ 62)%Z) by (apply lt_IZR; lra).
   destruct (nonneg_shape L Hf ltac:(lra)) as [(s & ->)|(m & e & H & ->)]; [reflexivity|].
-  cbn [B2SF floor_cmp] in *. unfold sat_i64. cbn [trunc_Z].
+  cbn [B2SF floor_cmp] in *. unfold sat_i64. cbn [trunc_Z]. rewrite Z.add_0_r in *.
   change (2 ^ 63)%Z with 9223372036854775808%Z. change (2 ^ 62)%Z with 4611686018427387904%Z in H1.
   destruct (0 <=? e)%Z; lia.
 Qed.
@@ -200,100 +206,98 @@ Qed.
 
 Section Chain.
   Variable T : Z.
+  Variable k : nat.             (* the total weight is T * 2^-k *)
   Hypothesis HT : (0 <= T < 2 ^ 53)%Z.
+  Hypothesis Hk : (k <= 1000)%nat.
+  Let K := Z.of_nat k.
+  Let t := IZR T * bpow radix2 (- K).
 
   Let HTR : 0 <= IZR T < IZR (2 ^ 53).
   Proof. split; [apply IZR_le|apply IZR_lt]; lia. Qed.
 
-  Definition X : bf := binary_normalize prec emax Hprec Hmax mode_NE T 0 false.
+  Let Hs : 0 < bpow radix2 (- K) <= 1.
+  Proof.
+    split; [apply bpow_gt_0|]. change 1 with (bpow radix2 0). apply bpow_le. unfold K. lia.
+  Qed.
+
+  Lemma t_bounds : 0 <= t <= IZR (2 ^ 53).
+  Proof.
+    unfold t. split; [apply Rmult_le_pos; lra|].
+    apply Rle_trans with (IZR T * 1); [apply Rmult_le_compat_l; lra|lra].
+  Qed.
+
+  Definition X : bf := binary_normalize prec emax Hprec Hmax mode_NE T (- K) false.
 
   Lemma IZR_le_bpow1000 z : Rabs z <= IZR (2 ^ 54) -> Rabs z <= bpow radix2 1000.
   Proof.
     intros H. apply Rle_trans with (1 := H). rewrite <- bpow_nonneg_Z by lia. apply bpow_le. lia.
   Qed.
 
-  Lemma X_ok : B2R X = IZR T /\ BinarySingleNaN.is_finite X = true.
+  Lemma X_ok : B2R X = t /\ BinarySingleNaN.is_finite X = true.
   Proof.
-    pose proof (binary_normalize_correct prec emax Hprec Hmax mode_NE T 0 false) as H.
+    pose proof (binary_normalize_correct prec emax Hprec Hmax mode_NE T (- K) false) as H.
     cbv zeta in H. fold X in H.
-    assert (Hx : F2R (Float radix2 T 0) = IZR T) by (unfold F2R; cbn [Fnum Fexp bpow]; lra).
+    assert (Hx : F2R (Float radix2 T (- K)) = t) by reflexivity.
     rewrite Hx in H.
-    assert (Hg : rnd (IZR T) = IZR T).
-    { apply round_generic; auto with typeclass_instances.
-      replace (IZR T) with (IZR T * bpow radix2 0) by (cbn [bpow]; lra).
-      apply fmt_scaled; lia. }
+    assert (Hg : rnd t = t).
+    { apply round_generic; auto with typeclass_instances. apply fmt_scaled; unfold K; lia. }
     rewrite Hg in H. rewrite Rlt_bool_true in H.
     - destruct H as (H1 & H2 & _). auto.
     - rewrite <- Hg. apply round_lt_emax. apply IZR_le_bpow1000.
-      rewrite Rabs_pos_eq by lra. apply Rle_trans with (IZR (2 ^ 53)); [lra|]. apply IZR_le. lia.
+      pose proof t_bounds. rewrite Rabs_pos_eq by lra. apply Rle_trans with (IZR (2 ^ 53)); [lra|]. apply IZR_le. lia.
   Qed.
 
   Definition IDEAL : bf := Bdiv mode_NE X TWO.
 
-  Lemma IDEAL_ok : B2R IDEAL = IZR T / 2 /\ BinarySingleNaN.is_finite IDEAL = true.
+  Lemma half_fmt : rnd (t / 2) = t / 2.
+  Proof.
+    apply round_generic; auto with typeclass_instances.
+    replace (t / 2) with (IZR T * bpow radix2 (- K - 1)).
+    - apply fmt_scaled; unfold K; lia.
+    - unfold t. replace (- K - 1)%Z with (- K + (-1))%Z by lia. rewrite bpow_plus.
+      change (bpow radix2 (-1)) with (/ 2). field.
+  Qed.
+
+  Lemma IDEAL_ok : B2R IDEAL = t / 2 /\ BinarySingleNaN.is_finite IDEAL = true.
   Proof.
     destruct X_ok as (HX & HXf).
     pose proof (Bdiv_correct prec emax Hprec Hmax mode_NE X TWO ltac:(rewrite B2R_TWO; lra)) as H.
     fold IDEAL in H. rewrite HX, B2R_TWO in H.
-    assert (Hg : rnd (IZR T / 2) = IZR T / 2).
-    { apply round_generic; auto with typeclass_instances.
-      replace (IZR T / 2) with (IZR T * bpow radix2 (-1)) by (cbn [bpow Z.pow_pos Pos.iter]; cbn; lra).
-      apply fmt_scaled; lia. }
-    rewrite Hg in H. rewrite Rlt_bool_true in H.
+    rewrite half_fmt in H. rewrite Rlt_bool_true in H.
     - destruct H as (H1 & H2 & _). rewrite HXf in H2. auto.
-    - rewrite <- Hg. apply round_lt_emax. apply IZR_le_bpow1000.
-      rewrite Rabs_pos_eq by lra. apply Rle_trans with (IZR (2 ^ 53)); [lra|]. apply IZR_le. lia.
+    - rewrite <- half_fmt. apply round_lt_emax. apply IZR_le_bpow1000.
+      pose proof t_bounds. rewrite Rabs_pos_eq by lra. apply Rle_trans with (IZR (2 ^ 53)); [lra|]. apply IZR_le. lia.
   Qed.
 
   Lemma mul_ok (C : bf) : BinarySingleNaN.is_finite C = true -> 0 <= B2R C <= 2 ->
-    B2R (Bmult mode_NE IDEAL C) = rnd (IZR T / 2 * B2R C)
+    B2R (Bmult mode_NE IDEAL C) = rnd (t / 2 * B2R C)
     /\ BinarySingleNaN.is_finite (Bmult mode_NE IDEAL C) = true.
   Proof.
     intros HCf HC. destruct IDEAL_ok as (HI & HIf).
     pose proof (Bmult_correct prec emax Hprec Hmax mode_NE IDEAL C) as H.
     rewrite HI in H. rewrite Rlt_bool_true in H.
     - destruct H as (H1 & H2 & _). rewrite HIf, HCf in H2. auto.
-    - apply round_lt_emax. apply IZR_le_bpow1000.
-      assert (0 <= IZR T / 2 * B2R C) by (apply Rmult_le_pos; lra).
+    - apply round_lt_emax. apply IZR_le_bpow1000. pose proof t_bounds as Htb.
+      assert (0 <= t / 2 * B2R C) by (apply Rmult_le_pos; lra).
       rewrite Rabs_pos_eq by lra.
       apply Rle_trans with (IZR (2 ^ 53) / 2 * 2); [|change (2 ^ 53)%Z with 9007199254740992%Z; change (2 ^ 54)%Z with 18014398509481984%Z; lra].
       apply Rmult_le_compat; lra.
   Qed.
-End Chain.
 
-Section Thr.
-  Variable T : Z.
-  Hypothesis HT : (1 <= T < 2 ^ 46)%Z.
-  Let HT53 : (0 <= T < 2 ^ 53)%Z. Proof. lia. Qed.
-
-  Definition LO : bf := Bmult mode_NE (IDEAL T) C99.
-  Definition HI : bf := Bmult mode_NE (IDEAL T) C101.
-
-  Lemma thresholds_B fw :
-    thresholds fw gridrcb_tolerance_bits T =
-    if fw then (ceil_cmp (B2SF LO), floor_cmp (B2SF HI)) else (sat_i64 (B2SF LO), sat_i64 (B2SF HI)).
-  Proof.
-    unfold thresholds. rewrite <- TWO_ok, <- C99_ok, <- C101_ok. rewrite (of_Z_B T).
-    fold (X T). unfold fdiv, fmul. rewrite SFdiv_B. fold (IDEAL T). rewrite !SFmul_B. reflexivity.
-  Qed.
-
-  Let t := IZR T.
-  Let Ht : 1 <= t < 70368744177664.
-  Proof. unfold t. split; [apply (IZR_le 1)|apply (IZR_lt _ 70368744177664)]; lia. Qed.
+  Definition LO : bf := Bmult mode_NE IDEAL C99.
+  Definition HI : bf := Bmult mode_NE IDEAL C101.
 
   Notation u := (/ 9007199254740992).
   Notation c99 := (8917127262193582 / 9007199254740992).
   Notation c101 := (4548635623644201 / 4503599627370496).
 
-  Lemma rel_err x : / 4 <= x ->
+  Lemma rel_err x : bpow radix2 (-1022) <= x ->
     x * (1 - u) <= rnd x <= x * (1 + u).
   Proof.
-    intros Hx.
+    intros Hx. assert (Hx0 : 0 < x) by (apply Rlt_le_trans with (2 := Hx); apply bpow_gt_0).
     pose proof (relative_error_N_FLT radix2 (-1074) prec ltac:(lia) (fun z => negb (Z.even z)) x) as H.
     change (round radix2 (FLT_exp (-1074) prec) (Znearest (fun z => negb (Z.even z))) x) with (rnd x) in H.
-    assert (Hb : bpow radix2 (-1074 + prec - 1) <= Rabs x).
-    { rewrite Rabs_pos_eq by lra. apply Rle_trans with (bpow radix2 (-2)); [apply bpow_le; lia|].
-      change (-2)%Z with (- (2))%Z. rewrite bpow_neg_Z by lia. change (2 ^ 2)%Z with 4%Z. lra. }
+    assert (Hb : bpow radix2 (-1074 + prec - 1) <= Rabs x) by (rewrite Rabs_pos_eq by lra; exact Hx).
     specialize (H Hb). rewrite (Rabs_pos_eq x) in H by lra.
     assert (Hu : / 2 * bpow radix2 (- prec + 1) = u).
     { change (- prec + 1)%Z with (- (52))%Z. rewrite bpow_neg_Z by lia.
@@ -301,99 +305,201 @@ Section Thr.
     rewrite Hu in H. apply Rabs_le_inv in H. lra.
   Qed.
 
+  (* a positive total is at least 2^-k, far inside the normal range *)
+  Lemma t_normal : (1 <= T)%Z -> bpow radix2 (-1020) <= t / 4.
+  Proof.
+    intros H1. assert (1 <= IZR T) by (apply (IZR_le 1); lia).
+    apply Rle_trans with (bpow radix2 (- K) / 4).
+    - replace (bpow radix2 (- K) / 4) with (bpow radix2 (- K - 2)).
+      + apply bpow_le. unfold K. lia.
+      + replace (- K - 2)%Z with (- K + (-2))%Z by lia. rewrite bpow_plus.
+        change (bpow radix2 (-2)) with (/ 4). field.
+    - unfold t. pose proof Hs. apply Rmult_le_compat_r; [lra|]. rewrite <- (Rmult_1_l (bpow radix2 (- K))) at 1.
+      apply Rmult_le_compat_r; lra.
+  Qed.
+
   Lemma LO_ok : BinarySingleNaN.is_finite LO = true /\
     0 <= B2R LO <= t / 2 /\ t / 2 * c99 * (1 - u) <= B2R LO.
   Proof.
-    destruct (mul_ok T HT53 C99 eq_refl ltac:(rewrite B2R_C99; lra)) as (Hv & Hf).
-    fold LO in Hv, Hf. fold t in Hv. rewrite B2R_C99 in Hv.
-    split; [exact Hf|]. rewrite Hv.
-    assert (Hg : rnd (t / 2) = t / 2).
-    { apply round_generic; auto with typeclass_instances.
-      replace (t / 2) with (IZR T * bpow radix2 (-1)) by (unfold t; cbn; lra).
-      apply fmt_scaled; lia. }
+    destruct (mul_ok C99 eq_refl ltac:(rewrite B2R_C99; lra)) as (Hv & Hf).
+    fold LO in Hv, Hf. rewrite B2R_C99 in Hv.
+    split; [exact Hf|]. rewrite Hv. pose proof t_bounds as Htb.
     split; [split|].
     - rewrite <- (round_0 radix2 (SpecFloat.fexp prec emax) (round_mode mode_NE)).
-      apply round_le; auto with typeclass_instances. apply fexp_correct; reflexivity. lra.
-    - rewrite <- Hg at 2. apply round_le; auto with typeclass_instances. apply fexp_correct; reflexivity. lra.
-    - apply rel_err. lra.
+      apply round_le; auto with typeclass_instances. apply fexp_correct; reflexivity. nra.
+    - rewrite <- half_fmt at 2. apply round_le; auto with typeclass_instances. apply fexp_correct; reflexivity. nra.
+    - destruct (Z.eq_dec T 0) as [E|E].
+      + assert (t = 0) by (unfold t; rewrite E; lra).
+        replace (t / 2 * c99) with 0 by lra. rewrite round_0; auto with typeclass_instances. lra.
+      + apply rel_err. pose proof (t_normal ltac:(lia)) as Hn.
+        apply Rle_trans with (bpow radix2 (-1020)); [apply bpow_le; lia|]. lra.
   Qed.
 
   Lemma HI_ok : BinarySingleNaN.is_finite HI = true /\
     t / 2 <= B2R HI /\ B2R HI <= t / 2 * c101 * (1 + u).
   Proof.
-    destruct (mul_ok T HT53 C101 eq_refl ltac:(rewrite B2R_C101; lra)) as (Hv & Hf).
-    fold HI in Hv, Hf. fold t in Hv. rewrite B2R_C101 in Hv.
-    split; [exact Hf|]. rewrite Hv.
-    assert (Hg : rnd (t / 2) = t / 2).
-    { apply round_generic; auto with typeclass_instances.
-      replace (t / 2) with (IZR T * bpow radix2 (-1)) by (unfold t; cbn; lra).
-      apply fmt_scaled; lia. }
+    destruct (mul_ok C101 eq_refl ltac:(rewrite B2R_C101; lra)) as (Hv & Hf).
+    fold HI in Hv, Hf. rewrite B2R_C101 in Hv.
+    split; [exact Hf|]. rewrite Hv. pose proof t_bounds as Htb.
     split.
-    - rewrite <- Hg at 1. apply round_le; auto with typeclass_instances. apply fexp_correct; reflexivity. lra.
-    - apply rel_err. lra.
+    - rewrite <- half_fmt at 1. apply round_le; auto with typeclass_instances. apply fexp_correct; reflexivity. nra.
+    - destruct (Z.eq_dec T 0) as [E|E].
+      + assert (t = 0) by (unfold t; rewrite E; lra).
+        replace (t / 2 * c101) with 0 by lra. rewrite round_0; auto with typeclass_instances. lra.
+      + apply rel_err. pose proof (t_normal ltac:(lia)) as Hn.
+        apply Rle_trans with (bpow radix2 (-1020)); [apply bpow_le; lia|]. lra.
   Qed.
-End Thr.
+
+  (* the same in units of 2^-k: lo' = lo * 2^k etc., against the integer total *)
+  Lemma scaled_ok :
+    let lo' := B2R LO * bpow radix2 K in
+    let hi' := B2R HI * bpow radix2 K in
+    0 <= lo' <= IZR T / 2 /\ IZR T / 2 <= hi' /\
+    IZR T / 2 * c99 * (1 - u) <= lo' /\ hi' <= IZR T / 2 * c101 * (1 + u).
+  Proof.
+    intros lo' hi'. destruct LO_ok as (_ & (Hl0 & Hl1) & Hl2). destruct HI_ok as (_ & Hh1 & Hh2).
+    assert (Hsk : 0 < bpow radix2 K) by apply bpow_gt_0.
+    assert (Hts : t * bpow radix2 K = IZR T).
+    { unfold t. rewrite Rmult_assoc, <- bpow_plus. replace (- K + K)%Z with 0%Z by lia. cbn [bpow]. lra. }
+    unfold lo', hi'. set (s := bpow radix2 K) in *.
+    assert (E1 : IZR T / 2 = t / 2 * s) by (rewrite <- Hts; field).
+    assert (E2 : IZR T / 2 * c99 * (1 - u) = t / 2 * c99 * (1 - u) * s) by (rewrite <- Hts; field).
+    assert (E3 : IZR T / 2 * c101 * (1 + u) = t / 2 * c101 * (1 + u) * s) by (rewrite <- Hts; field).
+    repeat split.
+    - apply Rmult_le_pos; lra.
+    - rewrite E1. apply Rmult_le_compat_r; lra.
+    - rewrite E1. apply Rmult_le_compat_r; lra.
+    - rewrite E2. apply Rmult_le_compat_r; lra.
+    - rewrite E3. apply Rmult_le_compat_r; lra.
+  Qed.
+End Chain.
+
+Lemma thresholds_B fw T :
+  thresholds fw gridrcb_tolerance_bits T =
+  match fw with
+  | F64 k => (ceil_cmp (Z.of_nat k) (B2SF (LO T k)), floor_cmp (Z.of_nat k) (B2SF (HI T k)))
+  | I64 => (sat_i64 (B2SF (LO T 0)), sat_i64 (B2SF (HI T 0)))
+  end.
+Proof.
+  unfold thresholds. rewrite <- TWO_ok, <- C99_ok, <- C101_ok.
+  assert (Ht : total_f64 fw T = B2SF (X T (match fw with I64 => 0%nat | F64 k => k end))).
+  { destruct fw; unfold total_f64, X; [rewrite of_Z_B; reflexivity|apply binary_normalize_equiv]. }
+  rewrite Ht. unfold fdiv, fmul. rewrite SFdiv_B. rewrite !SFmul_B. destruct fw; reflexivity.
+Qed.
 
 Ltac z_of_r := apply lt_IZR; repeat rewrite ?plus_IZR, ?minus_IZR, ?mult_IZR, ?opp_IZR.
+Ltac z_of_r_le := apply le_IZR; repeat rewrite ?plus_IZR, ?minus_IZR, ?mult_IZR, ?opp_IZR.
 
-Theorem thr_ok_flocq fw T : (0 <= T < 2 ^ 46)%Z -> thr_ok_b fw gridrcb_tolerance_bits T = true.
+(* i64 weights: one unit of slack absorbs the truncation; the float error stays
+   below 1/200 unit for totals below 2^46 *)
+Theorem thr_ok_flocq_i64 T : (0 <= T < 2 ^ 46)%Z -> thr_ok_b I64 gridrcb_tolerance_bits T = true.
 Proof.
-  intros HT. destruct (Z.eq_dec T 0) as [->|Hne]; [destruct fw; vm_compute; reflexivity|].
-  assert (HT1 : (1 <= T < 2 ^ 46)%Z) by lia.
-  unfold thr_ok_b. rewrite (thresholds_B T fw).
-  destruct (LO_ok T HT1) as (Hlf & (Hl0 & Hl1) & Hl2). destruct (HI_ok T HT1) as (Hhf & Hh1 & Hh2).
-  assert (Ht : 1 <= IZR T < 70368744177664)
-    by (split; [apply (IZR_le 1)|apply (IZR_lt _ 70368744177664)]; lia).
+  intros HT. assert (HT53 : (0 <= T < 2 ^ 53)%Z) by lia.
+  unfold thr_ok_b. rewrite (thresholds_B I64 T).
+  destruct (LO_ok T 0 HT53 ltac:(lia)) as (Hlf & (Hl0 & Hl1) & Hl2).
+  destruct (HI_ok T 0 HT53 ltac:(lia)) as (Hhf & Hh1 & Hh2).
+  cbn [Z.of_nat Z.opp bpow] in *. rewrite Rmult_1_r in *.
+  assert (Ht : 0 <= IZR T < 70368744177664)
+    by (split; [apply (IZR_le 0)|apply (IZR_lt _ 70368744177664)]; lia).
   set (t := IZR T) in *.
-  set (lo := B2R (LO T)) in *. set (hi := B2R (HI T)) in *.
+  set (lo := B2R (LO T 0)) in *. set (hi := B2R (HI T 0)) in *.
   assert (H62 : IZR (2 ^ 62) = 4611686018427387904) by reflexivity.
-  destruct fw.
-  - pose proof (ceil_cmp_spec (LO T) Hlf Hl0) as Ha. pose proof (floor_cmp_spec (HI T) Hhf ltac:(fold hi; lra)) as Hb.
-    fold lo in Ha. fold hi in Hb.
-    set (a := ceil_cmp (B2SF (LO T))) in *. set (b := floor_cmp (B2SF (HI T))) in *.
-    assert (F1 : (-1 < b)%Z) by (z_of_r; change (IZR (-1)) with (-1); lra).
-    assert (F2 : (a < b + 2)%Z) by (z_of_r; lra).
-    assert (F3 : (2 * a < T + 2)%Z) by (z_of_r; fold t; lra).
-    assert (F4 : (T < 2 * b + 2)%Z) by (z_of_r; fold t; lra).
-    assert (F5 : (99 * T - 201 < 200 * a)%Z) by (z_of_r; fold t; lra).
-    assert (F6 : (200 * b < 101 * T + 201)%Z) by (z_of_r; fold t; lra).
-    rewrite !andb_true_iff, !Z.leb_le. lia.
-  - pose proof (sat_i64_spec (LO T) Hlf ltac:(fold lo; rewrite H62; lra)) as Ha.
-    pose proof (sat_i64_spec (HI T) Hhf ltac:(fold hi; rewrite H62; lra)) as Hb.
-    fold lo in Ha. fold hi in Hb.
-    set (a := sat_i64 (B2SF (LO T))) in *. set (b := sat_i64 (B2SF (HI T))) in *.
-    assert (F1 : (-1 < b)%Z) by (z_of_r; change (IZR (-1)) with (-1); lra).
-    assert (F2 : (a < b + 2)%Z) by (z_of_r; lra).
-    assert (F3 : (2 * a < T + 2)%Z) by (z_of_r; fold t; lra).
-    assert (F4 : (T < 2 * b + 2)%Z) by (z_of_r; fold t; lra).
-    assert (F5 : (99 * T - 201 < 200 * a)%Z) by (z_of_r; fold t; lra).
-    assert (F6 : (200 * b < 101 * T + 201)%Z) by (z_of_r; fold t; lra).
-    rewrite !andb_true_iff, !Z.leb_le. lia.
+  pose proof (sat_i64_spec (LO T 0) Hlf ltac:(fold lo; rewrite H62; lra)) as Ha.
+  pose proof (sat_i64_spec (HI T 0) Hhf ltac:(fold hi; rewrite H62; lra)) as Hb.
+  fold lo in Ha. fold hi in Hb.
+  set (a := sat_i64 (B2SF (LO T 0))) in *. set (b := sat_i64 (B2SF (HI T 0))) in *.
+  assert (F1 : (-1 < b)%Z) by (z_of_r; change (IZR (-1)) with (-1); lra).
+  assert (F2 : (a < b + 2)%Z) by (z_of_r; lra).
+  assert (F3 : (2 * a < T + 2)%Z) by (z_of_r; fold t; lra).
+  assert (F4 : (T < 2 * b + 2)%Z) by (z_of_r; fold t; lra).
+  assert (F5 : (99 * T - 201 < 200 * a)%Z) by (z_of_r; fold t; lra).
+  assert (F6 : (200 * b < 101 * T + 201)%Z) by (z_of_r; fold t; lra).
+  unfold band_ok_b. rewrite !andb_true_iff, !Z.leb_le. lia.
+Qed.
+
+(* f64 weights z * 2^-k: no unit; the thresholds are within a relative 2^-40
+   (in fact 2^-46) of 0.99 / 1.01 times half the total, for every total below 2^53 *)
+Theorem thr_ok_flocq_f64 k T : (k <= 1000)%nat -> (0 <= T < 2 ^ 53)%Z ->
+  thr_ok_b (F64 k) gridrcb_tolerance_bits T = true.
+Proof.
+  intros Hk HT.
+  unfold thr_ok_b. rewrite (thresholds_B (F64 k) T).
+  destruct (LO_ok T k HT Hk) as (Hlf & (Hl0 & _) & _).
+  destruct (HI_ok T k HT Hk) as (Hhf & Hh1 & _).
+  pose proof (t_bounds T k HT Hk) as Htb.
+  destruct (scaled_ok T k HT Hk) as ((Hs0 & Hs1) & Hs2 & Hs3 & Hs4).
+  pose proof (ceil_cmp_spec (LO T k) (Z.of_nat k) Hlf Hl0) as Ha.
+  pose proof (floor_cmp_spec (HI T k) (Z.of_nat k) Hhf ltac:(lra)) as Hb.
+  assert (Ht : 0 <= IZR T < 9007199254740992)
+    by (split; [apply (IZR_le 0)|apply (IZR_lt _ 9007199254740992)]; lia).
+  set (t := IZR T) in *.
+  set (lo := B2R (LO T k) * bpow radix2 (Z.of_nat k)) in *.
+  set (hi := B2R (HI T k) * bpow radix2 (Z.of_nat k)) in *.
+  set (a := ceil_cmp (Z.of_nat k) (B2SF (LO T k))) in *.
+  set (b := floor_cmp (Z.of_nat k) (B2SF (HI T k))) in *.
+  assert (F1 : (-1 < b)%Z) by (z_of_r; change (IZR (-1)) with (-1); lra).
+  assert (F2 : (a < b + 2)%Z) by (z_of_r; lra).
+  assert (F3 : (2 * a < T + 2)%Z) by (z_of_r; fold t; lra).
+  assert (F4 : (T < 2 * b + 2)%Z) by (z_of_r; fold t; lra).
+  assert (F5 : (1099511627776 * (100 * (T - 2 * a)) <= 1099511627777 * T)%Z)
+    by (z_of_r_le; fold t; lra).
+  assert (F6 : (1099511627776 * (100 * (2 * b - T)) <= 1099511627777 * T)%Z)
+    by (z_of_r_le; fold t; lra).
+  unfold band_ok_b. change (2 ^ 40)%Z with 1099511627776%Z.
+  rewrite !andb_true_iff, !Z.leb_le. lia.
 Qed.
 
 (* ---------- Grid::rcb without the hypothesis on the thresholds ---------- *)
 From Coupe Require Import Proofs.GridRcbTree Proofs.GridRcbChecker Proofs.GridRcbMain.
 
+(* the totals covered for a weight type *)
+Definition total_ok (fw : wty) (tot : Z) : Prop :=
+  match fw with
+  | I64 => (tot < 2 ^ 46)%Z
+  | F64 k => (k <= 1000)%nat /\ (tot < 2 ^ 53)%Z
+  end.
+
+Lemma thr_ok_flocq fw t tot : total_ok fw tot -> (0 <= t <= tot)%Z ->
+  thr_ok_b fw gridrcb_tolerance_bits t = true.
+Proof.
+  destruct fw as [|k]; cbn [total_ok].
+  - intros H Ht. apply thr_ok_flocq_i64. lia.
+  - intros (Hk & H) Ht. apply thr_ok_flocq_f64; [exact Hk|lia].
+Qed.
+
 Lemma gridrcb_boxes_all c : cfg_ok c -> tol_bits c = gridrcb_tolerance_bits ->
   forall fuel T fw ds ws k,
   wf_grid ds ws -> Forall (fun s => (1 <= s)%nat) ds -> Forall (fun w => (0 <= w)%Z) ws ->
-  (sumZ ws < 2 ^ 46)%Z ->
+  total_ok fw (sumZ ws) ->
   Forall (fun s => (s < 2 ^ fuel)%nat) ds ->
   exists ids, grid_rcb c fuel T fw ds ws k (glen ds) = Ok ids
-              /\ C10_spec bal_strong (start_of c ds) ds ws k ids
-              /\ C10_spec bal_prop (start_of c ds) ds ws k ids.
+              /\ C10_spec (bal_strong fw) (start_of c ds) ds ws k ids
+              /\ C10_spec (bal_prop fw) (start_of c ds) ds ws k ids.
 Proof.
   intros Hc Htol fuel T fw ds ws k Hwf Hs Hnn Hsum Hf.
   apply gridrcb_boxes; auto.
-  intros t Ht. rewrite Htol. apply thr_ok_flocq. lia.
+  intros t Ht. rewrite Htol. eapply thr_ok_flocq; eauto.
 Qed.
 
 (* termination of the median search without the hypothesis on the thresholds *)
 Lemma median_terminates_all c : cfg_ok c -> tol_bits c = gridrcb_tolerance_bits ->
   forall (T fuel : nat) fw ws tot,
-  ws <> [] -> (0 <= tot < 2 ^ 46)%Z -> (Nat.log2 (length ws) + 1 <= fuel)%nat ->
+  ws <> [] -> (0 <= tot)%Z -> total_ok fw tot -> (Nat.log2 (length ws) + 1 <= fuel)%nat ->
   exists p w, weighted_median c fuel T fw ws tot = Ok (p, w).
 Proof.
-  intros Hc Htol T fuel fw ws tot Hne Htot Hf.
-  apply median_terminates_log2; auto. rewrite Htol. apply thr_ok_flocq. exact Htot.
+  intros Hc Htol T fuel fw ws tot Hne Htot Hok Hf.
+  apply median_terminates_log2; auto. rewrite Htol. apply (thr_ok_flocq fw tot tot Hok). lia.
+Qed.
+
+(* the balance reading of a returned cut, for f64 weights z * 2^-k and i64 weights alike *)
+Lemma median_balanced_all c : tol_bits c = gridrcb_tolerance_bits ->
+  forall fuel T fw ws tot p w,
+  ws <> [] -> tot = sumZ ws -> (0 <= tot)%Z -> total_ok fw tot ->
+  weighted_median c fuel T fw ws tot = Ok (p, w) ->
+  w = pre ws p /\ exists s, nth_opt ws p = Some s /\
+  (band_of fw tot w \/ (2 * w < tot <= 2 * (w + s))%Z).
+Proof.
+  intros Htol fuel T fw ws tot p w Hne Htot H0 Hok Hm.
+  apply (median_balanced c fuel T fw ws tot p w Hne Htot H0); auto.
+  rewrite Htol. apply (thr_ok_flocq fw tot tot Hok). lia.
 Qed.
